@@ -547,10 +547,19 @@ def unit_mills_recheck():
                        fn="A-Mills", note=str(bad[:5]) if bad else "1/(2-y) <= V(y)+y, V(y) <= -y+4/5 and the fifth-convergent lower bound of V confirmed on 1201 points of [-12, 0]")]
 
 
+def unit_lean(filename):
+    """A-Phi and the Mills-ratio bounds, machine-checked against Mathlib (lemmas/Phi.lean)"""
+    from .util import lean_check
+    return [lean_check(f"C17/lemmas/{filename}-checked-by-Lean-Mathlib", filename)]
+
+
 def units(tier):
-    return [("unit_tab", ()), ("unit_v", ()), ("unit_w", ()), ("unit_vt", ()), ("unit_wt", ()), ("unit_contract_v_vt", ()),
-            ("unit_emode", ("phi_major",)), ("unit_emode", ("phi_minor",)),
-            ("unit_emode_vw", ("v",)), ("unit_emode_vw", ("w",)), ("unit_mills_recheck", ())]
+    import os
+    from .. import VERIF
+    lean = [("unit_lean", (f,)) for f in ("Phi.lean", "Phi2.lean") if tier == "thorough" and os.path.exists(os.path.join(VERIF, "lemmas", f))]
+    return lean + [("unit_tab", ()), ("unit_v", ()), ("unit_w", ()), ("unit_vt", ()), ("unit_wt", ()), ("unit_contract_v_vt", ()),
+                   ("unit_emode", ("phi_major",)), ("unit_emode", ("phi_minor",)),
+                   ("unit_emode_vw", ("v",)), ("unit_emode_vw", ("w",)), ("unit_mills_recheck", ())]
 
 
 def main(tier, seed):
@@ -562,7 +571,7 @@ def main(tier, seed):
         PROP, tier, seed, "proof", records, errors, walls, t0,
         functions=fns,
         assumptions=[
-            "A-Phi: 0 < Phi < 1, Phi monotone (instances), reflection, phi > 0, phi even",
+            "A-Phi: 0 < Phi < 1, Phi monotone (instances), reflection, phi > 0, phi even - machine-checked against Mathlib in lemmas/Phi.lean (thorough tier) for Phi := cdf of the standard Gaussian measure; that libm's erfc/2 is this Phi is A-erf (the definition of erfc) and stays assumed",
             "A-tab: rational enclosures of Phi / erf at a few fixed points (e.g. Phi(-8.13) < 2^-52 < Phi(-8.12)), numerically re-checked against a 50-digit reference on every run",
             "A-Mills (assumed real analysis): V > 0, V(y) + y > 0, V(y) <= -y - 1/y and V(y) >= z + (z^3+7z)/(z^4+9z^2+8) (z = -y) for y < 0, 0 < W < 1, -V(-x-t) <= V~(x,t) <= V(x-t), 0 < W~ <= 1; A-cond-mean: -t-x <= V~(x,t) <= t-x (V~ is the mean of a standard normal conditioned on [-t-x, t-x])",
             "E-mode: first-order relative-error model with u = 2^-53; A-libm: erf/erfc/exp within 4u of the mathematical function, sqrt correctly rounded; assumed condition-number bounds kappa_erf <= 1, kappa_erfc(a) <= 2a^2+2a+1 (a > 0), <= 1 (a <= 0); x in [-37.5, 38]",
